@@ -13,6 +13,7 @@ import (
 	"github.com/antchfx/xpath"
 
 	"verif/mc/doc"
+	"verif/mc/eng"
 	"verif/mc/explore"
 	"verif/mc/ref"
 	"verif/mc/report"
@@ -51,6 +52,14 @@ func totalOne(s string, full bool) (fail string, accepted bool) {
 		if it := e.Select(doc.NewNav(emptyDoc, 0, nil)); it == nil {
 			return "Select returned nil", accepted
 		}
+		// "usable": using it on the empty document must not abort with a Go
+		// runtime error (deliberate error values are C15's business)
+		if o := eng.Select(e, emptyDoc, 0, false); o.Kind == "panic-runtime" {
+			return "accepted expression is not usable: Select: " + o.Msg, accepted
+		}
+		if o := eng.Evaluate(e, emptyDoc, 0, false); o.Kind == "panic-runtime" {
+			return "accepted expression is not usable: Evaluate: " + o.Msg, accepted
+		}
 	}
 	m := xpath.MustCompile(s)
 	if m == nil {
@@ -65,6 +74,16 @@ func totalOne(s string, full bool) (fail string, accepted bool) {
 			if (e2 == nil) == (err2 == nil) {
 				return fmt.Sprintf("CompileWithNS(%v) returned expr=%v err=%v", ns, e2 != nil, err2), accepted
 			}
+			if e2 != nil {
+				if o := eng.Evaluate(e2, emptyDoc, 0, false); o.Kind == "panic-runtime" {
+					return fmt.Sprintf("expression accepted by CompileWithNS(%v) is not usable: %s", ns, o.Msg), accepted
+				}
+			}
+		}
+		// the verdict for one string does not depend on how often it was compiled
+		e3, _ := xpath.Compile(s)
+		if (e3 != nil) != accepted {
+			return fmt.Sprintf("Compile accepted=%v the first time and accepted=%v the second time", accepted, e3 != nil), accepted
 		}
 	}
 	return "", accepted
